@@ -12,7 +12,8 @@ RULE = ("Engine K: a continuous conveyor (length, item length, speed from a grid
         "alternating, irregular; gets at the grant instant). Validity predicates on put instants p_i, offer instants r_i "
         "(first instant in ready_items) and get instants g_i: items are got in entry order; occupancy <= capacity after "
         "every kernel event; p_(i+1) - p_i >= item_length/speed (slot delay); r_i - p_i >= length/speed (capacity*delay); "
-        "if no item ever waited (g_i == r_i for all i) then r_i - p_i == length/speed exactly (1e-9 relative). Non-trivial: "
+        "if no item ever waited (g_i == r_i for all i) then r_i - p_i == length/speed exactly (1e-9 relative); an item whose "
+        "predecessors were all taken is offered before the run ends. Non-trivial: "
         ">= 3 items on the belt at once and (irregular arrivals or a stall).")
 ASSUMPTIONS = ["offer instant = first kernel event after which the item is in ready_items (or its get instant if it is taken in that same event)",
                "tolerance 1e-9 relative on time differences"]
@@ -155,6 +156,17 @@ def run_case(case):
             res.violate((kind, acc, "min_travel", fl), "item #%d entered at %s and was offered at %s: %.6g < belt travel time %.6g" % (
                 i, p[i], ro, tr, r.travel_nominal))
             break
+    # an item that entered but is still not offered when the run ends (T lies far beyond the scripts) is stuck on the belt.
+    # Only judged when every earlier item was taken (otherwise it legitimately waits behind a stalled head).
+    if r.crashed is None and not r.livelock:
+        taken = set(id(it) for (_t, it) in got)
+        for i, it in enumerate(items):
+            if id(it) not in r.t_offer:
+                if all(id(x) in taken for x in items[:i]) and len(case["consumer"]) > len(got):
+                    res.violate((kind, acc, "never_offered", fl),
+                                "item #%d entered at %s and is still not offered at the end of the run (t=%s) although every item before it "
+                                "was taken and the destination is waiting" % (i, p[i] if i < len(p) else None, r.env.now))
+                break
     gmap = {id(it): t for (t, it) in got}
     for i, ro in offers:
         g = gmap.get(id(items[i]))
